@@ -195,14 +195,17 @@ Definition sort_N (l : list N) : list N := fold_right insert_N [] l.
 (* check_frame_lanes_valid: None = Ok, Some 1 = invalid number of lanes, Some 2 = invalid grouping *)
 Definition expect_lanes (ly : layer) : N := match ly with L_Inner => 3 | L_Middle => 8 | L_Outer => 14 end.
 
-Definition inner_groupings (lane_ids : list N) (fatal : list N) : result (option N) :=
-  if existsb (fun f => 8 <? f) fatal then Panic SITE_fatal_lane_number
+(* validate_inner_lane_groupings.  [ign]: a fatal lane number above 8 (no inner barrel lane) leaves the groupings alone; the pinned
+   commit reached unreachable!() there (finding F17, repaired).  Regenerated fact, see Gen.Facts. *)
+Definition inner_groupings_gen (ign : bool) (lane_ids : list N) (fatal : list N) : result (option N) :=
+  if existsb (fun f => 8 <? f) fatal && negb ign then Panic SITE_fatal_lane_number
   else
     let g0 := filter (fun x => negb (existsb (N.eqb x) fatal)) [0; 1; 2] in
     let g1 := filter (fun x => negb (existsb (N.eqb x) fatal)) [3; 4; 5] in
     let g2 := filter (fun x => negb (existsb (N.eqb x) fatal)) [6; 7; 8] in
     let s := sort_N lane_ids in
     if list_N_eqb s g0 || list_N_eqb s g1 || list_N_eqb s g2 then Ok None else Ok (Some 2).
+Definition inner_groupings := inner_groupings_gen Gen.Facts.fatal_lane_beyond_barrel_is_ignored.
 
 Definition frame_lanes_valid (ly : layer) (fr : frame) (fatal : option (list N)) : result (option N) :=
   let exp := match fatal with
